@@ -156,6 +156,13 @@ def r3(ctx: Ctx) -> None:
                 found = "[" + ", ".join(key(x) for x in items) + "]"
                 stars = [x[1] for x in items if x[0] == "star"]
                 ok = len(items) == 2 and len(stars) == 2 and lists[s] and next(iter(lists[s])) in [x[1] for x in lit[1] if x[0] == "star"] and any(queue_side(x) == s for x in stars)
+        if not sts:
+            # the queue is restored in another way (slice assignment, insert, a helper): that it is restored at all is
+            # visible from some write to the queue after the walk; how is not decided here
+            other = [e for e in after if (e.kind in ("store", "del") and e.attr is None and e.base is not None and nm in key(strip_ver(e.base))) or (e.kind == "call" and e.data.get("mutates") is not None and nm in key(strip_ver(e.data["mutates"])) and e.name != "heapify")]
+            if other:
+                ctx.unrec(f, other[0].node, f"{nm} queue is rebuilt from popped + remaining orders before the fills", "the queue is restored in place, in a form that is not modelled", ", ".join(sorted({getattr(e, "name", None) or e.kind for e in other})))
+                continue
         ctx.check(ok, f, sts[0].node if sts else f.node, f"{nm} queue is rebuilt from popped + remaining orders before the fills", "[*popped, *queue]", found)
     # and the fills come after the rebuild
     idx_fill = w.main.events.index(w.fill_call) if w.fill_call in w.main.events else -1
@@ -164,6 +171,8 @@ def r3(ctx: Ctx) -> None:
             if e_.kind == "loop" and any(w.fill_call in bp.events for bp in e_.paths):
                 idx_fill = i_
     idx_st = max([w.main.events.index(e) for e in after if e.kind == "store" and e.attr == "priority_queue"] or [-1])
+    if idx_st < 0:
+        return  # no rebinding after the walk: refused or reported above
     ctx.check(0 <= idx_st < idx_fill, f, w.fill_call.node, "books are restored before fills are executed", "rebuild precedes fills", f"rebuild@{idx_st} fills@{idx_fill}")
 
 
